@@ -10,13 +10,13 @@ From LW Require Import Base.Outcome Base.Bytes.
 Import ListNotations.
 Open Scope Z_scope.
 
-(* encode.go:45-49 *)
+(* encode.go:47-51 *)
 Definition prbs23 (x : Z) : Z :=
   let b0 := Z.land x 1 in
   let b1 := Z.quot (Z.land x 32) 32 in
   Z.quot x 2 + (Z.lxor b0 b1) * 2 ^ 22.
 
-(* encode.go:51-53 *)
+(* encode.go:53-55 *)
 Definition is_power2 (num : Z) : bool :=
   negb (num =? 0) && (Z.land num (num - 1) =? 0).
 
@@ -54,7 +54,7 @@ Fixpoint coeffs (k : nat) (fuel : nat) (x m mm : Z) (line : list bool) : outcome
     end
   end.
 
-(* encode.go:55-75; m = len(dataRows) >= 0 *)
+(* encode.go:57-77; m = len(dataRows) >= 0 *)
 Definition matrix_line (fuel : nat) (n m : Z) : outcome (list bool) :=
   if m <? 0 then Panic else
   let mm := if is_power2 m then 1 else 0 in
@@ -91,7 +91,8 @@ Fixpoint parity_rows (fuel : nat) (cnt : nat) (y : Z) (rows : list (list N)) (si
 
 Definition FUEL : nat := 64.
 
-(* encode.go:10-43 *)
+(* encode.go:10-45; since fix 4f15916 the data rows are copies of data[offset:offset+size] -
+   invisible at the level of values *)
 Definition encode_with (fuel : nat) (data : list N) (size red : Z) : outcome (list (list N)) :=
   let len := Z.of_nat (length data) in
   if size <=? 0 then Err else                (* guard added by fix 9813ac2 *)
